@@ -1788,11 +1788,13 @@ class Exists(QuantifiedConditional):
     ) -> Iterable[OperationResult]:
         sources = sources or {}
         self._eval_parent_ = parent
-        seen_var_values = []
+        # one result per binding of the variables the quantified expression ranges over, compared by identity
+        variable_ids = [v._id_ for v in self.variable._all_variable_instances_]
+        seen_variable_bindings = set()
         for val in self.condition._evaluate__(sources, parent=self):
-            var_val = val[self.variable._id_]
-            if val.is_true and var_val.value not in seen_var_values:
-                seen_var_values.append(var_val.value)
+            binding = tuple(val[i].id_ for i in variable_ids if i in val)
+            if val.is_true and binding not in seen_variable_bindings:
+                seen_variable_bindings.add(binding)
                 yield OperationResult(val.bindings, False, self)
 
     def _invert_(self):
